@@ -263,7 +263,7 @@ func genProbe(t *rapid.T, label string) (*node, probeExp) {
 		n.Fields = append(n.Fields, field{Name: "kidOpt", Sub: genKid(t, label+"kidOpt", &e)})
 		exp["kidOpt"] = e
 	}
-	nl := rapid.IntRange(1, 3).Draw(t, label+"nlist")
+	nl := rapid.SampledFrom([]int{1, 2, 3, 2, 11, 12, 10, 23}).Draw(t, label+"nlist") // also lists whose indices have two digits
 	var list []*node
 	exp["kidList"] = ""
 	for i := 0; i < nl; i++ {
@@ -877,8 +877,11 @@ func injectFault(t *rapid.T, c config, m map[string]string) (string, bool) {
 		}
 		return kind, true
 	case "dangling-ref":
-		c.Loggers["lgx"] = &node{Type: "Logger", Fields: []field{attr("tags", "_c15_x"), {Name: "appenderRef", List: []*node{{Fields: []field{attr("ref", "ghost")}}}}}}
-		return kind, true
+		// a name no appender has: an unrelated one, or one that merely resembles the appender p1 (a
+		// reference is a value, not a key: it is compared as written)
+		ghost := rapid.SampledFrom([]string{"ghost", "P1", "p1_", "p_1", "p-1", "p1-", "p1 x", "appender.p1"}).Draw(t, "ghost")
+		c.Loggers["lgx"] = &node{Type: "Logger", Fields: []field{attr("tags", "_c15_x"), {Name: "appenderRef", List: []*node{{Fields: []field{attr("ref", ghost)}}}}}}
+		return kind + ":" + ghost, true
 	case "absent-property":
 		probe.del("strDef")
 		// a key that does not exist at all, or one that names a section (sub-tree) rather than a property
